@@ -239,6 +239,10 @@ def run_shard(ctx):
     quick = ctx.tier == 'quick'
     history_property(ctx, ID, PROFILE, [monitor], summarize,
                      max_examples=200 if quick else 3000, steps=40 if quick else 80)
+    # long runs with many sessions
+    w = dict(PROFILE['weights'], open=9, vanish=4, advance=6)
+    history_property(ctx, ID, dict(PROFILE, weights=w, max_sessions=12), [monitor], summarize,
+                     max_examples=15 if quick else 300, steps=120 if quick else 200)
 
 
 def replay(case, ctx):
